@@ -78,7 +78,7 @@ func mandatoryLen(name string, img []byte, r record) int {
 }
 
 func runC03(res *Result, d *Driver, g *Rng, tier string) {
-	res.Rule = "every PDU decoder and the five dispatchers on structured malformed images (every truncation point, length/count octets replaced by 0,1,0x7f,0x80,0xff, inconsistent total length incl. 0xFFFFFFF0-style declared lengths, trailing garbage 1..16, well-formed and malformed optional tails) and random bytes; auxiliary parsers (PeekHeader x4, NewHeaderFromBytes, ParseLongSmsContent, both receipt extractors, Unpack / packed decoder, ReadTLVs/ReadTLVs1/ReadOptions/ParseOptions, frame extractors, text decoders, Decode*Content) on all strings of <= 2 octets, branch alphabets to length 6 and random strings; panic, deadline (hang) and runtime.MemStats.TotalAlloc captured per call; non-trivial = distinct input"
+	res.Rule = "every PDU decoder and the five dispatchers on structured malformed images (every truncation point, length/count octets replaced by 0,1,0x7f,0x80,0xff, inconsistent total length incl. 0xFFFFFFF0-style declared lengths, trailing garbage 1..16, well-formed and malformed optional tails) and random bytes; auxiliary parsers (PeekHeader x4, NewHeaderFromBytes, ParseLongSmsContent, both receipt extractors, Unpack / packed decoder, ReadTLVs/ReadTLVs1/ReadOptions/ParseOptions, frame extractors, text decoders, Decode*Content) on all strings of <= 2 octets, branch alphabets to length 4 (5 thorough) and random strings; panic, deadline (hang) and runtime.MemStats.TotalAlloc captured per call; non-trivial = distinct input"
 	if err := loadLayouts(layoutsPath); err != nil {
 		res.Disagreements = append(res.Disagreements, Violation{Class: "driver-failure", What: err.Error()})
 		return
@@ -87,7 +87,7 @@ func runC03(res *Result, d *Driver, g *Rng, tier string) {
 	c := &c03ctx{res: res}
 	per := 3
 	if thorough {
-		per = 40
+		per = 12
 	}
 	var ops, goOut []string
 	for _, name := range pduNames() {
@@ -186,7 +186,7 @@ func runC03(res *Result, d *Driver, g *Rng, tier string) {
 	alpha := []byte{0x00, 0x01, 0x05, 0x06, 0x0d, 0x1b, 0x20, 0x3a, 0x53, 0x69, 0x7f, 0x80, 0xff}
 	maxL := 4
 	if thorough {
-		maxL = 6
+		maxL = 5
 	}
 	var rec func(prefix []byte, depth int)
 	rec = func(prefix []byte, depth int) {
